@@ -532,6 +532,137 @@ seeded("c04-depth-from-children-footprint", ["C04"], both("        for depth, _ 
 seeded("c04-size-via-root", ["C04"], both("        for size, _ in enumerate(PreOrderIter(self), 1):\n            continue\n        return size", "        for size, _ in enumerate(PreOrderIter(self if self.parent is None else self), 1):\n            continue\n        return size"), ["N3"])
 
 
+# ------------------------------------------------ flag / single-exit style (normalisation must not hide these)
+CHK_NM = """            if not isinstance(child, (NodeMixin, LightNodeMixin)):
+                msg = "Cannot add non-node object %r. It is not a subclass of 'NodeMixin'." % (child,)
+                raise TreeError(msg)
+            childid = id(child)
+            if childid not in seen:
+                seen.add(childid)
+            else:
+                msg = "Cannot add node %r multiple times as child." % (child,)
+                raise TreeError(msg)
+"""
+# single raise point, but the duplicate complaint is overwritten with None before the test: duplicates accepted
+seeded("flag-check-children-duplicate-lost", ["C02"], [(NM, CHK_NM, """            msg = None
+            if not isinstance(child, (NodeMixin, LightNodeMixin)):
+                msg = "Cannot add non-node object %r. It is not a subclass of 'NodeMixin'." % (child,)
+            else:
+                childid = id(child)
+                if childid not in seen:
+                    seen.add(childid)
+                else:
+                    msg = None
+            if msg is not None:
+                raise TreeError(msg)
+""")], ["E3", "E2"])
+benign("flag-check-children-single-raise", ["C02", "C01", "C03"], [(NM, CHK_NM, """            msg = None
+            if not isinstance(child, (NodeMixin, LightNodeMixin)):
+                msg = "Cannot add non-node object %r. It is not a subclass of 'NodeMixin'." % (child,)
+            else:
+                childid = id(child)
+                if childid not in seen:
+                    seen.add(childid)
+                else:
+                    msg = "Cannot add node %r multiple times as child." % (child,)
+            if msg is not None:
+                raise TreeError(msg)
+""")])
+# loop flag cleared one level too late (tests `>=` replaced by a flag that is only looked at after descending)
+LOG_LOOP = """        while children:
+            yield tuple(child for child in children if filter_(child))
+            level += 1
+            if AbstractIter._abort_at_level(level, maxlevel):
+                break
+            children = LevelOrderGroupIter._get_grandchildren(children, stop)
+"""
+seeded("flag-levelordergroup-descends-once-more", ["C06"], [("anytree/iterators/levelordergroupiter.py", LOG_LOOP, """        descending = True
+        while descending and children:
+            yield tuple(child for child in children if filter_(child))
+            level += 1
+            if AbstractIter._abort_at_level(level - 1, maxlevel):
+                descending = False
+            else:
+                children = LevelOrderGroupIter._get_grandchildren(children, stop)
+""")], ["S3"])
+benign("flag-levelordergroup-loop-flag", ["C06", "C05"], [("anytree/iterators/levelordergroupiter.py", LOG_LOOP, """        descending = True
+        while descending and children:
+            yield tuple(child for child in children if filter_(child))
+            level += 1
+            if AbstractIter._abort_at_level(level, maxlevel):
+                descending = False
+            else:
+                children = LevelOrderGroupIter._get_grandchildren(children, stop)
+""")])
+# boolean temporary with the wrong polarity: the link keeps foreign names and forwards its own
+SETATTR = """        if name in ("_NodeMixin__parent", "_NodeMixin__children", "parent", "children", "target"):
+            super(SymlinkNodeMixin, self).__setattr__(name, value)
+        else:
+            setattr(self.target, name, value)
+"""
+seeded("flag-symlink-setattr-polarity", ["C20"], [("anytree/node/symlinknodemixin.py", SETATTR, """        forward = name in ("_NodeMixin__parent", "_NodeMixin__children", "parent", "children", "target")
+        if forward:
+            setattr(self.target, name, value)
+        else:
+            super(SymlinkNodeMixin, self).__setattr__(name, value)
+""")], ["L2"])
+# _abort_at_level as a single-exit function that is off by one
+seeded("flag-abort-at-level-single-exit-ge", ["C06"], [("anytree/iterators/abstractiter.py",
+                                                         "        return maxlevel is not None and level > maxlevel\n", """        abort = False
+        if maxlevel is not None:
+            abort = level >= maxlevel
+        return abort
+""")], ["S3"])
+benign("flag-abort-at-level-single-exit", ["C06", "C05"], [("anytree/iterators/abstractiter.py",
+                                                            "        return maxlevel is not None and level > maxlevel\n", """        abort = False
+        if maxlevel is not None:
+            abort = level > maxlevel
+        return abort
+""")])
+# CountError through a single check point, but the maxcount complaint is dropped when mincount is given
+FINDALL = """    if mincount is not None and resultlen < mincount:
+        msg = "Expecting at least %d elements, but found %d."
+        raise CountError(msg % (mincount, resultlen), result)
+    if maxcount is not None and resultlen > maxcount:
+        msg = "Expecting %d elements at maximum, but found %d."
+        raise CountError(msg % (maxcount, resultlen), result)
+"""
+seeded("flag-findall-maxcount-skipped", ["C14"], [("anytree/search.py", FINDALL, """    complaint = None
+    if mincount is not None:
+        if resultlen < mincount:
+            msg = "Expecting at least %d elements, but found %d."
+            complaint = msg % (mincount, resultlen)
+    elif maxcount is not None and resultlen > maxcount:
+        msg = "Expecting %d elements at maximum, but found %d."
+        complaint = msg % (maxcount, resultlen)
+    if complaint is not None:
+        raise CountError(complaint, result)
+""")])
+# dispatch table with the parent step mapped to "stay"
+GETLOOP = """            if part == "..":
+                parent = node.parent
+                if parent is None:
+                    if self.relax:
+                        return None
+                    raise RootResolverError(node)
+                node = parent
+            elif part in ("", "."):
+                pass
+            else:
+                node = self.__get(node, part)
+                if node is None:
+                    return None
+"""
+seeded("flag-resolver-dispatch-table-up-ignored", ["C07"], [("anytree/resolver.py", GETLOOP, """            step = Resolver._STEPS.get(part, Resolver.__get)
+            if step is not None:
+                node = step(self, node, part)
+                if node is None:
+                    return None
+"""), ("anytree/resolver.py", "    def __get(self, node, name):\n", """    _STEPS = {"..": None, "": None, ".": None}
+
+    def __get(self, node, name):
+""")])
+
 # ---------------------------------------------------------------- patch-based corpus
 # benign/<id>/patch.diff : behaviour-preserving refactorings written by independent authors
 #                          (must stay silent for every check)
